@@ -803,7 +803,10 @@ class Zone(dns.transaction.TransactionManager):
         if self.relativize:
             name = dns.name.empty
         else:
-            assert self.origin is not None
+            if self.origin is None:
+                # No origin was given and the input had no $ORIGIN: there is
+                # no origin node, hence no SOA.
+                raise NoSOA
             name = self.origin
         if self.get_rdataset(name, dns.rdatatype.SOA) is None:
             raise NoSOA
